@@ -58,7 +58,12 @@ func c10Case(o *Out, r *Rng) {
 			return
 		}
 		f := Pick(r, cands)
-		f.args = append(f.args, gArgVal{name: "zz", lit: "1"})
+		if r.Chance(35) {
+			// an undeclared argument is undeclared whatever its value: also a literal null
+			f.args = append(f.args, gArgVal{name: "zz", lit: "null", isNull: true})
+		} else {
+			f.args = append(f.args, gArgVal{name: "zz", lit: "1"})
+		}
 		kind = "arg"
 	case c == 2: // required argument omitted or null
 		var cands []*gSel
@@ -307,6 +312,8 @@ var c10LTable = []struct {
 }{
 	{`{ list { id plain(x: 1) } }`, "", 0},
 	{`{ list { id plain(bogus: 1) } }`, "Item.plain", 3},
+	{`{ list { id plain(bogus: null) } }`, "Item.plain", 3},
+	{`{ list { id plain(x: 1, bogus: null) } }`, "Item.plain", 3},
 	{`{ list { id sub { plain(bogus: 1) } } }`, "Item.plain", 3},
 	{`{ list { id size } }`, "Item.size", 3},
 	{`{ items { ... on Item { id plain(bogus: 1) } } }`, "Item.plain", 2},
